@@ -1,11 +1,11 @@
 """C01 — frames that arrive together stay together: no mixed or partial frame sets."""
 import logging
 from ..core import Violation
-from .. import protocol, pipeline, netfeed
+from .. import protocol, pipeline, netfeed, netlossy
 
 ID = 'C01'
-MODULES = ['OFModel.Zmq.Receiver', 'OFModel.Zmq.Sender', 'OFModel.FilterLoop', 'OFModel.Zmq.Net', 'OFModel.Gen.Facts']
-PROP_FILES = ['C01', 'C03JoinMulti', 'NetRecv', 'NetSend', 'C01Net']     # per-source completeness ('exactly the subscribed topics published under that id, never a subset') is C03_join_complete_multi; provenance across filters is C01Net
+MODULES = ['OFModel.Zmq.Receiver', 'OFModel.Zmq.Sender', 'OFModel.FilterLoop', 'OFModel.Zmq.Net', 'OFModel.Zmq.NetLossy', 'OFModel.Gen.Facts']
+PROP_FILES = ['C01', 'C03JoinMulti', 'NetRecv', 'NetSend', 'C01Net', 'NetLossyInv', 'C01NetLossy']     # per-source completeness ('exactly the subscribed topics published under that id, never a subset') is C03_join_complete_multi; provenance across filters is C01Net
 RULE = ('(1) adversarial wire feeds of a real ZMQReceiver: 1-3 sources x {sync, ?, ??} x {all topics, explicit+remap, *} x {well-formed increasing ids with '
         'skips, arbitrary ids with duplicates/stale/restarts/loss/specials}; random interleaving (FIFO per source) and a recv(timeout=0) call after '
         'random prefixes, so every call boundary is a time-out; random poll order; state = None or the MQ discipline.  '
@@ -14,11 +14,16 @@ RULE = ('(1) adversarial wire feeds of a real ZMQReceiver: 1-3 sources x {sync, 
         'callable / callable returning None on every node incl. the branches that are rejoined, run on explicit schedules of recv i | send i @t | restart i (graceful or crash) - fair sweeps, loose sweeps and '
         'chaotic orders, clock gaps beyond the connection time-out - and compared event by event with the Lean model OF.Net (requests pushed, sets returned, what process() is handed, every wire message published, '
         'return value of send, and per node: next id, client table, prev_id, buffers, queue lengths, MQ.send_state / recv_state); oracle on origin tags carried in the frames themselves.  '
+        '(2b) the same closed network WITH LOSS AND DUPLICATION (OFProps/C01NetLossy.lean, model OF.Net.Lossy, harness/ofverif/netlossy.py): the schedules of (2) with 0-6 fault events inserted - '
+        'dropw (a queued PUB->SUB message disappears, also in the middle of a frame set), dropr (a queued request disappears), dupr (a queued request is doubled) - applied to the queues of the REAL fake sockets, '
+        'indices chosen adaptively inside non-empty queues (15 % arbitrary / out of range); same event-by-event comparison (driver op netl.run) and the same origin-tag oracle.  '
         '(3) MQNet pipeline runs with delays and loss.  non-trivial = at least one set returned / handed to a node with a receiver')
 ASSUMPTIONS = ['per-source completeness (C03_join_complete_multi) is proved for loss-free FIFO block streams into a non-balanced receiver with synchronised sources; under loss / adversarial input the single-id invariant (C01_inv_reachable) and buffer-level completeness (C05_sets_complete) are what is proved, completeness against what was published is then checked by the oracle',
                'a `state` above the receiver\'s own expected id is passed only while no partial set is buffered (what MQ.recv/MQ.send do); stated as Adm in the receiver theorem - inside the network model this is PROVED of the MQ hand-over (NodeInv.rstate), not assumed',
                'topic names are non-empty (network level: hypothesis ProcOK - handed no empty topic name, a process function returns none; that handed names are non-empty is proved: a heartbeat is never stored as a frame, step_ne)', 'libzmq is replaced by an in-process fake: FIFO per connection, PUB/SUB prefix filtering (harness/ofverif/fakezmq.py)',
-               'network level (C01_net_provenance): every topology (acyclicity not needed), every process-function family, every schedule incl. restarts, no bound; the model delivers immediately, loss-free and FIFO per connection; '
+               'network level (C01_net_provenance): every topology (acyclicity not needed), every process-function family, every schedule incl. restarts, no bound; the base model delivers immediately, loss-free and FIFO per connection; '
+               'C01_netl_inv_reachable / C01_netl_provenance / _single / _single_exact / C01_netl_ids_increasing (C01NetLossy.lean) are the same statements for every LOSSY schedule: any queued PUB->SUB message may disappear at any time before it is polled '
+               '(covers late delivery: what is queued is what is in flight), any queued request may disappear or be doubled; not modelled: duplication / re-ordering of PUB->SUB messages on one connection, zmq.Again; completeness is NOT claimed under loss (exLossy: a set with a lost message is never handed); '
                'all subscriptions synchronised all-topics, no balancing / ephemeral listeners / outs_required / _metrics / _filter topics; a source frame is identified by (source node, incarnation, id it was published under), and one incarnation publishes an id at most once (C01_net_ids_increasing)',
                'network level: "descends from one and the same original frame" = origin SUBSET {(s0, 0, k)} for every schedule that never restarts the source (C01_net_provenance_single_exact; other nodes may restart), = {(s0, 0, k)} if moreover no filter makes frames out of an empty set (C01_net_provenance_single_eq); '
                'with a restart of the source AND of a branch it is false on the real code: known finding net-mixed-incarnation (corpus/C01, pending_fixes/C01-net-mixed-incarnation.finding.md)']
@@ -81,4 +86,5 @@ def run(ctx):
     n = 12000 if ctx.thorough else (4000 if ctx.escalate else 1200)
     protocol.recv_campaign(ctx, 'C01', n, ['wf', 'wf', 'adv', 'adv', 'bal'])
     net_campaign(ctx, 6000 if ctx.thorough else (1500 if ctx.escalate else 500))
+    netlossy.campaign(ctx, 'C01', 2000 if ctx.thorough else (450 if ctx.escalate else 150), origin_oracle=True)
     if not ctx.replay: pipeline.campaign_sets(ctx, 'C01', 400 if ctx.thorough else 40)
